@@ -1,7 +1,7 @@
 (** C12 — Destination I/O failures surface from the failing call; finalize is
     retryable.  Statements only; proofs in Proofs/WriterFaults.v. *)
 From SF Require Import Model.Bytes Model.F64 Model.ShapeType Model.Shapes Model.Res Model.Encode Model.Writer.
-From SF Require Import Proofs.WriterCore Proofs.WriterInv Proofs.WriterFaults Proofs.WriterRecover.
+From SF Require Import Proofs.WriterCore Proofs.WriterInv Proofs.WriterFaults Proofs.WriterRecover Proofs.WriterTotal.
 Open Scope Z_scope.
 
 (** Every writer call is a straight-line list of destination operations with
@@ -19,6 +19,22 @@ Theorem C12_fault_surfaces : forall (ops : list (dest * wop)) (w : world),
     ((r = Ok tt /\ post = []) \/ (r = Err EIoInjected /\ post <> [])).
 Proof. exact run_ops_prefix. Qed.
 Print Assumptions C12_fault_surfaces.
+
+(** At the level of calls: in ANY writer state and ANY world (any fault plan
+    armed on either destination), every call of every history returns Ok, the
+    type-mismatch error or the injected I/O error — never a panic. *)
+Theorem C12_calls_never_panic : forall (cs : list wcall) (st : wstate) (w : world), world_pos_ok w ->
+  Forall good_result (fst (fst (run_calls cs st w))) /\ world_pos_ok (snd (run_calls cs st w)).
+Proof. exact run_calls_outcomes. Qed.
+Print Assumptions C12_calls_never_panic.
+
+(** In particular for a history started on fresh destinations with a fault
+    armed at the k-th operation of either of them, one-shot or persistent,
+    ended by drop or finalize + drop. *)
+Theorem C12_history_never_panics : forall (hs : bool) (t : dest) (k : nat) (persistent : bool) (cs : list wcall) (e : wending),
+  Forall good_result (fst (run_history hs (world_with_fault t k persistent) cs e)).
+Proof. exact history_never_panics. Qed.
+Print Assumptions C12_history_never_panics.
 
 (** finalize on destinations with any fault plan, in any state whose record
     regions are intact ([WBuf]: what every history of calls, failed ones
